@@ -2,6 +2,7 @@ SPECIFICATION Spec
 CONSTANTS Thorough = FALSE
           MaxSegs = 64
           MaxBytes = 65535
+          CrossSession = FALSE
           Design = "strict"
 INVARIANTS Link SortOK Partition Rejects
 CHECK_DEADLOCK FALSE
